@@ -866,7 +866,8 @@ def run(ctx):
     ctx.floor("configs2", 288)
     ctx.floor("merges2", 8)
     if not ctx.counts.get("dependent_skipped"):
-        ctx.floor("merges3", 8)
+        ctx.floor("merges3", 88)
+        ctx.floor("chain_shapes", 8)
         ctx.floor("writer_cases", 200 if full else 104)
     ctx.assume("leaf conditions are side-effect free, so equality of the selected successor for every outcome combination is routing equivalence")
     ctx.assume("back edges into the chain (a conditional node that is its own successor) are outside the quantifier (exit targets only)")
